@@ -169,7 +169,7 @@ func (fx *FnExec) flag(name string) string {
 
 func (fx *FnExec) coverPre() *Obligation {
 	// the precondition must be satisfiable: (not false) under the context => expect sat
-	return &Obligation{Name: displayKey(fx.key) + "/cover#pre", Class: "cover", Fn: fx.key, Goal: tFalse, Upto: fx.c.mark(), Text: "precondition is satisfiable", fx: fx, Expect: "sat"}
+	return &Obligation{Name: displayKey(fx.key) + fx.nameTag + "/cover#pre", Class: "cover", Fn: fx.key, Goal: tFalse, Upto: fx.c.mark(), Text: "precondition is satisfiable", fx: fx, Expect: "sat"}
 }
 
 // specEnv builds the evaluation environment of the function's own contract
@@ -694,7 +694,7 @@ func (fx *FnExec) backEdge(from, header *ssa.BasicBlock, succIdx int) error {
 		}
 	}
 	invs := fx.loopInvariants(li)
-	fx.obls = append(fx.obls, &Obligation{Name: displayKey(fx.key) + fmt.Sprintf("/cover#loop%d.b%d", li.ordinal, latchOrdinal(li, from)), Class: "cover", Fn: fx.key, Goal: sNot(cond), Upto: fx.c.mark(), Text: "loop back edge is reachable under the invariant", fx: fx, Expect: "sat"})
+	fx.obls = append(fx.obls, &Obligation{Name: displayKey(fx.key) + fx.nameTag + fmt.Sprintf("/cover#loop%d.b%d", li.ordinal, latchOrdinal(li, from)), Class: "cover", Fn: fx.key, Goal: sNot(cond), Upto: fx.c.mark(), Text: "loop back edge is reachable under the invariant", fx: fx, Expect: "sat"})
 	// bind phis to their back-edge values temporarily
 	saved := map[ssa.Value]Val{}
 	for _, in := range header.Instrs {
@@ -1087,6 +1087,17 @@ func (fx *FnExec) instr(in ssa.Instruction) error {
 		var bs []Val
 		for _, b := range x.Bindings {
 			bs = append(bs, fx.val(b))
+		}
+		// a method value: binding a nil pointer receiver does not panic by itself, but calling the value does as soon as the
+		// method touches its receiver; unless the method is declared nil-tolerant (`nilrecv`) the binding is the place to object
+		if strings.HasPrefix(f.Synthetic, "bound method wrapper") && len(bs) == 1 && isPointer(x.Bindings[0].Type()) && f.Object() != nil {
+			tolerant := false
+			if mc := fx.e.contracts[funcKeyOf(f.Object().(*types.Func))]; mc != nil {
+				_, tolerant = mc.Flags["nilrecv"]
+			}
+			if !tolerant {
+				fx.oblige("nil", "", sNot(fx.isNil(bs[0])), "nil dereference: method value "+f.Object().Name()+" bound to a nil receiver", x.Pos())
+			}
 		}
 		h := fx.c.fresh("closure", "Int")
 		fx.c.assert(app(">", h, "0"))
